@@ -8,6 +8,14 @@
                                           the sequence is run once per configuration with a fresh cache and buffer
         hdr = b<kind> | o<base index> | r<base index> | x<kind>      (x: ext = base object, out of pack)
         cfg = [o<object cache bytes>+] ( n | s<size>:<limit> | m<bytes> )
+     mem <cap> <op>*                     lru::MemoryCappedHashmap::new(cap) through the same put/get ops
+     mdec <cfgs> <requests> <k> <pids> (<hdr> <data> <ext> <id>)*
+                                          like dec, but the entry list is k packs of equal length (entry
+                                          indices are global, bases stay inside their pack) with distinct
+                                          pack ids (indices into the harness' table), sharing caches and buffer.
+                                          The key byte of lru/mem ops and the entry index of dec/mdec stand for
+                                          the full (pack_id, offset) pair: the harness maps them injectively to
+                                          ids/offsets that differ only in high bits.
    mode "spec": the objects the requests denote (Spec.object_of), compared with git. *)
 From GixV.Base Require Import Bytes Outcome.
 From GixV.C08 Require Import Model Spec.
@@ -70,6 +78,20 @@ Fixpoint run_lru (bd : build) (s : slru) (ops : list bytes) (acc : list bytes) :
           let '(s', h) := slru_get s (b2N key) in
           run_lru bd s' r ((bs "g" ++ show_hit h ++ bs "/" ++ show_state s') :: acc)
       | _ => run_lru bd s r (bs "?" :: acc)
+      end
+  end.
+
+Fixpoint run_mem (m : mcache) (ops : list bytes) (acc : list bytes) : list bytes :=
+  match ops with
+  | [] => rev acc
+  | op :: r =>
+      match op with
+      | x70 :: key :: kind :: csz :: data =>
+          run_mem (mcache_put m (b2N key) data (b2N kind) (b2N csz)) r (bs "p" :: acc)
+      | x67 :: key :: _ =>
+          let '(m', h) := mcache_get m (b2N key) in
+          run_mem m' r ((bs "g" ++ show_hit h) :: acc)
+      | _ => run_mem m r (bs "?" :: acc)
       end
   end.
 
@@ -221,21 +243,60 @@ Definition show_lines (o : outcome (list bytes) err) : bytes :=
   | OutOfFuel => bs "HANG"
   end.
 
+(* bases stay inside their pack: entries [i] and [b] are in the same segment of length [seg] *)
+Fixpoint seg_ok (seg i : N) (p : pack) : bool :=
+  match p with
+  | [] => true
+  | e :: r =>
+      (match pe_kind e with
+       | EDelta b => (b / seg =? i / seg)
+       | _ => true
+       end) && seg_ok seg (i + 1) r
+  end.
+
+Fixpoint distinct_bytes (l : bytes) : bool :=
+  match l with
+  | [] => true
+  | x :: r => negb (existsb (beqb x) r) && distinct_bytes r
+  end.
+
+Definition run_dec (spec : bool) (bd : build) (cfgsf reqsf : bytes) (p : pack) : bytes :=
+  match parse_cfgs (split_on x2c cfgsf) with
+  | Some cs =>
+      let reqs := map b2N reqsf in
+      if forallb (fun i => i <? N.of_nat (length p)) reqs then
+        if spec then join (bs ",") (map (show_spec p) reqs)
+        else show_lines (run_cfgs bd p reqs cs [])
+      else bs "invalid"
+  | None => bs "invalid"
+  end.
+
 Definition run_model (spec : bool) (bd : build) (fs : list bytes) : bytes :=
   let op := nth_field 0 fs in
   if bytes_eqb op (bs "lru") then
     let size := field_N 1 fs in
     if size_ok size then show_lines (run_lru bd (slru_new size (field_N 2 fs)) (skipn 3 fs) [])
     else bs "invalid"
+  else if bytes_eqb op (bs "mem") then
+    let cap := field_N 1 fs in
+    if 1 <=? cap then join (bs " ") (run_mem (mcache_new cap 0) (skipn 2 fs) [])
+    else bs "invalid"
   else if bytes_eqb op (bs "dec") then
-    match parse_cfgs (split_on x2c (nth_field 1 fs)), parse_entries 0 (skipn 3 fs) with
-    | Some cs, Some p =>
-        let reqs := map b2N (nth_field 2 fs) in
-        if forallb (fun i => i <? N.of_nat (length p)) reqs then
-          if spec then join (bs ",") (map (show_spec p) reqs)
-          else show_lines (run_cfgs bd p reqs cs [])
+    match parse_entries 0 (skipn 3 fs) with
+    | Some p => run_dec spec bd (nth_field 1 fs) (nth_field 2 fs) p
+    | None => bs "invalid"
+    end
+  else if bytes_eqb op (bs "mdec") then
+    match parse_entries 0 (skipn 5 fs) with
+    | Some p =>
+        let k := field_N 3 fs in
+        let pids := nth_field 4 fs in
+        let n := N.of_nat (length p) in
+        if (1 <=? k) && (k <=? 4) && (1 <=? n) && (n mod k =? 0) && (len pids =? k)
+           && forallb (fun b => b2N b <? 16) pids && distinct_bytes pids && seg_ok (n / k) 0 p
+        then run_dec spec bd (nth_field 1 fs) (nth_field 2 fs) p
         else bs "invalid"
-    | _, _ => bs "invalid"
+    | None => bs "invalid"
     end
   else bs "?".
 
